@@ -283,8 +283,10 @@ pub fn rand_step(rng: &mut Rng, valid_pub: &[Vec<u8>]) -> String {
             )
         }
         22 => format!("step op=set_public_key pk={}", rng.below(3)),
-        23 => "step op=redecode".to_string(),
-        24 => format!("step op=snap slot={}", rng.below(2)),
+        23 => if rng.chance(1, 2) { "step op=redecode".to_string() } else {
+            format!("step op=reannounce what={} n={}", rng.pick(&["client", "udp4", "udp6", "tcp4", "tcp6", "ip4", "ip6", "udp4s", "tcp4s", "udp6s", "tcp6s", "raw", "pubkey"]), rng.below(4))
+        },
+        24 => if rng.chance(1, 2) { format!("step op=snap slot={}", rng.below(2)) } else { "step op=tamperdec".to_string() },
         _ => format!("step op=cmp slot={}", rng.below(2)),
     }
 }
@@ -326,6 +328,17 @@ pub fn rep_steps(valid_pub: &[Vec<u8>], small: bool) -> Vec<String> {
         "step op=set_udp_socket ip=00000000000000000000ffffc0000201 port=9000".into(),
         "step op=set_tcp_socket ip=00000000000000000000ffff7f000001 port=65535".into(),
         "step op=set_ip ip=00000000000000000000ffff0a000001".into(),
+        "step op=tamperdec".into(),
+        "step op=insert key=7068 vt=phantom val=-".into(),
+        "step op=insert key=7068 vt=rawenc val=0102".into(),
+        "step op=insert key=7068 vt=rawenc val=0183746370821f90".into(),
+        "step op=insert key=7068 vt=rawenc val=c20102".into(),
+        "step op=reannounce what=client".into(),
+        "step op=reannounce what=udp4s".into(),
+        "step op=reannounce what=tcp6".into(),
+        "step op=reannounce what=ip4".into(),
+        "step op=reannounce what=raw n=1".into(),
+        "step op=insert_raw key=636c69656e74 raw=ca8567657468ff83312e30".into(),
         "step op=set_udp_socket ip=fe800000000000000000000000000001 port=9000 scope=3 flow=0".into(),
         "step op=set_tcp_socket ip=20010db8000000000000000000000002 port=443 scope=0 flow=74565".into(),
         // addresses whose bytes spell reserved keys, values at the 55/56-byte header boundary,
@@ -434,6 +447,9 @@ pub fn inits(rng: &mut Rng, sig_len: usize) -> Vec<String> {
     ));
     // `Enr::empty`, the same key added twice, a record with as many pairs as the builder allows
     v.push("init kind=empty signer=0".into());
+    v.push("init kind=build calls=enc:7068:0102;tcp4:5 signer=0".into());
+    v.push("init kind=build calls=enc:7068:-;tcp4:5 signer=0".into());
+    v.push("init kind=build calls=enc:7068:c101 signer=0".into());
     v.push("init kind=build calls=raw:6b:01;raw:6b:02;uint:6b:3 signer=0".into());
     {
         let many: Vec<String> = (1..=85u8).map(|i| format!("raw:{:02x}:{:02x}", i, (i % 0x7e) + 1)).collect();
@@ -447,7 +463,7 @@ pub fn inits(rng: &mut Rng, sig_len: usize) -> Vec<String> {
 }
 
 fn with_signer(step: &str, signer: usize, fail: bool) -> String {
-    if step.contains("op=snap") || step.contains("op=cmp") || step.contains("op=redecode") {
+    if step.contains("op=snap") || step.contains("op=cmp") || step.contains("op=redecode") || step.contains("op=tamperdec") {
         step.to_string()
     } else {
         format!("{step} signer={signer} fail={}", fail as u8)
@@ -499,6 +515,24 @@ pub fn gen_hist(schemes: &[&str], rng: &mut Rng, thorough: bool, cases: &mut Vec
                 c.lines.push(with_signer(a, s1, f1));
                 c.lines.push(with_signer(b, s2, f2));
                 cases.push(c);
+            }
+        }
+        // valid signatures with a rare byte pattern (a zero byte at offset 0, 32 or 63), which the
+        // randomised secp256k1 signers produce once in 256 signatures each
+        if kinds_of(scheme).contains(&Kind::Secp) && ind_of(scheme, &keys[0]).kind == Kind::Secp {
+            for (i, a) in reps.iter().enumerate() {
+                if i % (if thorough { 2 } else { 5 }) != 0 {
+                    continue;
+                }
+                for shape in 1..=3 {
+                    let mut c = Case::new("hist", scheme, id, "signature-byte-pattern");
+                    id += 1;
+                    c.keys = keys.clone();
+                    c.lines.push(init_list[i % 8].clone());
+                    c.lines.push(format!("{} sigshape={shape}", with_signer(a, 0, false)));
+                    c.lines.push("step op=redecode".into());
+                    cases.push(c);
+                }
             }
         }
         // keys mined from the source: one step each, then a second harmless step and a re-decode
@@ -644,6 +678,48 @@ pub fn gen_size(schemes: &[&str], rng: &mut Rng, thorough: bool, cases: &mut Vec
                     ));
                     c.lines.push(with_signer(st, 0, false));
                     cases.push(c);
+                }
+            }
+        }
+        // the builder refuses records above ~295 bytes, so sizes 296..=300 are reached by growing a
+        // built record with a first insertion; the second step is the update under test, including
+        // updates that re-announce exactly what is stored (same socket, port, address, value, key)
+        {
+            let p0 = (120 + 64usize).saturating_sub(sl.min(64 + 120));
+            let padv = rlp_bytes(&vec![0x61; p0]);
+            let mut steps2 = steps.clone();
+            steps2.extend([
+                "step op=set_udp4 port=30303".to_string(),
+                "step op=set_tcp4 port=80".to_string(),
+                "step op=set_ip ip=c0a80001".to_string(),
+                "step op=set_tcp_socket ip=c0a80001 port=80".to_string(),
+                format!("step op=insert_raw key=706164 raw={}", hx(&padv)),
+                "step op=remove_insert rm=- ins=-".to_string(),
+                "step op=remove_key key=6e6f6e65".to_string(),
+                "step op=reannounce what=udp4s".to_string(),
+                "step op=reannounce what=raw n=0".to_string(),
+                "step op=reannounce what=raw n=2".to_string(),
+                "step op=reannounce what=pubkey".to_string(),
+            ]);
+            for &seq in seqs {
+                for grow in 292..=301usize {
+                    for (si, st) in steps2.iter().enumerate() {
+                        if !thorough && (grow + si + seq as usize) % 2 != 0 && grow != 300 {
+                            continue;
+                        }
+                        let signer2 = if *scheme == "comb" && si % 3 == 0 { 2 } else { 0 };
+                        let mut c = Case::new("size", scheme, id, "grown");
+                        id += 1;
+                        c.keys = keys.clone();
+                        c.lines.push(format!(
+                            "init kind=build calls=seq:{};raw:706164:{};tcp4:80;ip4:c0a80001;udp4:30303 signer=0",
+                            seq.saturating_sub(1),
+                            hx(&padv)
+                        ));
+                        c.lines.push(format!("step op=grow_to size={grow} signer=0"));
+                        c.lines.push(with_signer(st, signer2, false));
+                        cases.push(c);
+                    }
                 }
             }
         }
@@ -893,6 +969,36 @@ pub fn gen_acc(schemes: &[&str], rng: &mut Rng, thorough: bool, cases: &mut Vec<
             ));
             c.lines.push("step op=redecode".into());
             cases.push(c);
+        }
+        // setters called with exactly what the typed accessor reports now (for ill-formed UTF-8 in the
+        // stored client strings the accessor reports the lossy conversion, which is NOT what is stored)
+        for client_raw in [
+            "ca8567657468ff83312e30",          // ["geth\xff", "1.0"]
+            "c98467657468833 12e30".replace(' ', "").as_str(), // ["geth", "1.0"]
+            "cb83c3a92883312e3083f09f98", // ill-formed third string
+        ] {
+            for what in ["client", "udp4", "tcp6", "ip4", "ip6", "udp4s", "tcp6s", "raw", "pubkey"] {
+                let mut c = Case::new("acc", scheme, id, "reannounce");
+                id += 1;
+                c.keys = keys.clone();
+                c.lines.push(format!(
+                    "init kind=build calls=seq:{};ip4:{};ip6:{};udp4:{};tcp6:{} signer=0",
+                    rng.range(1, 300),
+                    hx(&rand_ip4(rng)),
+                    hx(&rand_ip6(rng)),
+                    rand_port(rng),
+                    rand_port(rng)
+                ));
+                c.lines.push(with_signer(
+                    &format!("step op=insert_raw key=636c69656e74 raw={client_raw}"),
+                    0,
+                    false,
+                ));
+                c.lines.push(with_signer(&format!("step op=reannounce what={what} n=1"), 0, false));
+                c.lines.push(with_signer(&format!("step op=reannounce what={what} n=1"), 0, false));
+                c.lines.push("step op=redecode".into());
+                cases.push(c);
+            }
         }
         // the client list wrapped in a string header / in another list / with trailing bytes in the list
         for raw in [
